@@ -12,8 +12,9 @@
    Text is list Z of code points (generator domain: printable ASCII, tab, newline).
    Not modelled (the model answers EUnmodelled): Match exec/address/localaddress/localnetwork,
    the %C token, '~user' / '[..]' / '**' / '.' / '..' in Include patterns.
-   The two [quirks] switch between the code as it is and the behaviour the property asks for; they
-   exist so that the same definitions carry both the refutations and the positive theorems.
+   The [quirks] switch between the code as it is (impl_quirks), the code before the repairs
+   d9a79c3 / d97dd8e (old_quirks) and the behaviour the property asks for (no_quirks); they exist
+   so that the same definitions carry both the refutations and the positive theorems.
    No proofs here. *)
 Require Import Coq.Strings.String Coq.Strings.Ascii.
 From AV Require Import Base.Prelude.
@@ -366,10 +367,21 @@ Definition client_no_split : list str := [z "proxycommand"; z "remotecommand"].
 Definition mem_str (s : str) (l : list str) : bool := existsb (str_eqb s) l.
 
 (* ---- the environment of one load ------------------------------------------------------------ *)
-Record quirks := { q_expand_each_parse : bool;   (* tokens reset + expansion at the end of EVERY parse() *)
-                   q_glob_unsorted : bool }.      (* Include reads matches in directory order *)
-Definition impl_quirks : quirks := {| q_expand_each_parse := true; q_glob_unsorted := true |}.
-Definition no_quirks : quirks := {| q_expand_each_parse := false; q_glob_unsorted := false |}.
+(* in which order Include reads the files a glob selects *)
+Inductive gorder := GDir          (* directory order (code before d9a79c3) *)
+                  | GComponents   (* sorted(Path...): component lists compared (code from d9a79c3 to d0360eb) *)
+                  | GString.      (* sorted(..., key=str): whole path strings compared, what glob(3) / ssh does
+                                     (code as it is, since d0360eb) *)
+Record quirks := { q_expand_each_parse : bool;   (* _set_tokens + expansion at the end of EVERY parse() (before d97dd8e) *)
+                   q_glob_order : gorder }.
+(* the code as it is now: expansion once per load (_expand_options), matches sorted as strings *)
+Definition impl_quirks : quirks := {| q_expand_each_parse := false; q_glob_order := GString |}.
+(* the code between d9a79c3 and d0360eb: matches sorted as Path objects *)
+Definition pathsort_quirks : quirks := {| q_expand_each_parse := false; q_glob_order := GComponents |}.
+(* the code before the repairs d9a79c3 / d97dd8e *)
+Definition old_quirks : quirks := {| q_expand_each_parse := true; q_glob_order := GDir |}.
+(* what the property asks for *)
+Definition no_quirks : quirks := {| q_expand_each_parse := false; q_glob_order := GString |}.
 
 Record env := {
   e_client : bool;
@@ -510,13 +522,31 @@ Fixpoint insert_sorted (x : str) (l : list str) : list str :=
   match l with [] => [x] | y :: r => if str_leb x y then x :: l else y :: insert_sorted x r end.
 Definition sort_paths (l : list str) : list str := fold_right insert_sorted [] l.
 
+(* PurePath.__lt__: the lists of components are compared, each component as a string *)
+Fixpoint comps_leb (a b : list str) : bool :=
+  match a, b with
+  | [], _ => true
+  | _ :: _, [] => false
+  | x :: a', y :: b' => if str_eqb x y then comps_leb a' b' else str_leb x y
+  end.
+Fixpoint insert_sorted_c (x : str) (l : list str) : list str :=
+  match l with
+  | [] => [x]
+  | y :: r => if comps_leb (split_on SLASH x) (split_on SLASH y) then x :: l else y :: insert_sorted_c x r
+  end.
+Definition sort_paths_c (l : list str) : list str := fold_right insert_sorted_c [] l.
+
 (* the regular files an Include argument selects, in the order they are read *)
 Definition glob (E : env) (pat : str) : res (list str) :=
   match resolve_pattern E pat with
   | None => Err EUnmodelled
   | Some cs =>
       let hits := filter (fun p => comps_match cs (split_on SLASH (tl p))) (map fst (e_fs E)) in
-      Ok (if q_glob_unsorted (e_quirks E) then hits else sort_paths hits)
+      Ok (match q_glob_order (e_quirks E) with
+          | GDir => hits
+          | GComponents => sort_paths_c hits
+          | GString => sort_paths hits
+          end)
   end.
 
 (* ---- setters ---------------------------------------------------------------------------------- *)
@@ -716,8 +746,9 @@ Definition finish (E : env) (st : state) : res state :=
 
 Definition pct_token : list (Z * str) := [(PCT, [PCT])].
 
-(* SSHConfig.parse(path).  With q_expand_each_parse (the code as it is) every parse - of a listed
-   path or of an included file - resets the token table and ends with _set_tokens + expansion. *)
+(* SSHConfig.parse(path): every parse - of a listed path or of an included file - starts matching
+   with the token table reset to {'%': '%'}.  With q_expand_each_parse (the code before d97dd8e)
+   every parse also ended with _set_tokens + expansion; now that happens once, in load. *)
 Fixpoint parse_file (fuel : nat) (E : env) (path : str) (st : state) : res state :=
   match fuel with
   | O => Err EFuel
@@ -726,7 +757,7 @@ Fixpoint parse_file (fuel : nat) (E : env) (path : str) (st : state) : res state
       | None => Err ECrash                                          (* OSError from open() *)
       | Some lines =>
           let each := q_expand_each_parse (e_quirks E) in
-          let st0 := mkState (s_opts st) true (if each then pct_token else s_tokens st) (s_final st) in
+          let st0 := mkState (s_opts st) true pct_token (s_final st) in
           bind (run_lines (parse_file f E) E lines st0) (fun st1 => if each then finish E st1 else Ok st1)
       end
   end.
